@@ -431,6 +431,8 @@ def check(pid, tier='quick', base_seed=0, runs=None, wall_cap=None, corpus=True,
     for k in getattr(mod, 'EXPECT_PROBES', {}).get(tier, getattr(mod, 'EXPECT_PROBES', {}).get('all', [])):
         if not tot['probes'].get(k):
             warn.append('probe %s stuck at zero' % k)
+    if tot['probes'].get('base_run_failed', 0) > max(5, tot['n'] // 50):
+        warn.append('%d of %d runs were skipped because their fault-free base run already misbehaved (harness or library trouble?)' % (tot['probes']['base_run_failed'], tot['n']))
     evals = tot['n'] + (pre.get('evaluations', 0) if pre else 0) + corpus_n
     distinct = len(tot['digests'])
     cov = {
